@@ -251,7 +251,10 @@ H("cidq_insert_step", ["C03", "C09", "C04"], "quick", "cid_queue::insert_step",
    ("sequence", "u32"), ("retire_prior_to", "u32"), ("new_tag", "u8"), ("probe", "u8")], 22,
   ["stored, nothing retired", "Retired", "ExceedsLimit", "retired range reported"],
   ["CidQueue::insert", "CidQueue::iter", "CidQueue::active", "CidQueue::active_seq"],
-  "one step from every ring state satisfying the invariant (any cursor, any occupancy of the 5 slots), offset / retire_prior_to <= sequence < 2^32; CIDs are 8 bytes built from one symbolic tag byte per slot")
+  "one step from every ring state satisfying the invariant (any cursor, any occupancy of the 5 slots), offset / retire_prior_to <= sequence < 2^32; CIDs are 8 bytes built from one symbolic tag byte per slot",
+  unwind_probe=("cidq_insert_step_count_native", {"retire_prior_to": (1 << 62) - 1}))
+H("cidq_insert_step_count_native", ["C03"], "replay-only", "cid_queue::insert_step_count_native",
+  [("retire_prior_to", "u64")], 4, [], ["CidQueue::insert"], "native probe run when the unwinding assertion of cidq_insert_step fails: the insertion must return within 10 s for retire_prior_to = 2^62 - 1")
 H("cidq_next_step", ["C03", "C09"], "quick", "cid_queue::next_step",
   [("cursor", "u8"), ("offset", "u64"), ("occ", "[bool; 5]"), ("tag", "[u8; 5]"), ("has_tok", "[bool; 5]")], 22,
   ["switched", "no other CID"], ["CidQueue::next", "CidQueue::iter", "CidQueue::active"],
